@@ -261,6 +261,7 @@ func main() {
 	if err := os.WriteFile(filepath.Join(dir, "export_verif_c12.go"), []byte(b.String()), 0o644); err != nil {
 		die("%v", err)
 	}
+	genC01(repo, out) // property C01 (c01.go)
 	genC05(repo, out) // property C05 (c05.go)
 	// property C07: crash-point injection into the segment writer (crash.go)
 	genCrash(repo, out)
